@@ -450,6 +450,22 @@ func cmdCheck(args []string) int {
 	sort.Strings(assumedL)
 	sort.Strings(axiomL)
 	groundTestsRun = groundRun
+	for _, c := range ctxs {
+		if c.con != nil && strings.HasPrefix(c.con.ID, "theory:") {
+			for _, th := range CS.Theories {
+				if "theory:"+th.Name != c.con.ID {
+					continue
+				}
+				var pd []string
+				for _, it := range th.Items {
+					if it.Kind == "proof-def" {
+						pd = append(pd, it.Name)
+					}
+				}
+				extraTrusted = append(extraTrusted, fmt.Sprintf("theory %s: %d laws proved here as obligations (%s); they rest on the definitions above, on the proof-only definitions and restated sequence laws [%s], and on the induction principles for byte strings (empty / snoc) and naturals - all of which the Lean model of lean/ shows to be jointly satisfiable (./check C01)", th.Name, len(th.Proved), strings.Join(th.Proved, ", "), strings.Join(pd, ", ")))
+			}
+		}
+	}
 	writeEvidence(root, *prop, *tier, seed, reports, samples, byBackend, time.Since(t0).Seconds(), violations, assumedL, axiomL, total, discharged)
 	fmt.Printf("property %s: %d functions under contract, %d obligations, %d discharged, %d vacuity checks, %d known findings, %d violations, %.1fs\n", *prop, len(cons), total, discharged, vac, len(knownLines), violations, time.Since(t0).Seconds())
 	if violations > 0 {
@@ -460,6 +476,7 @@ func cmdCheck(args []string) int {
 
 var groundTestsRun int
 var boundedResults []*boundedResult
+var extraTrusted []string
 
 // runGroundTests executes /verif/ground tests named TestGround<PROP>_*.
 func runGroundTests(root, prop string) (run, failed int, out string) {
@@ -497,6 +514,7 @@ func writeEvidence(root, prop, tier string, seed int, reports []*funcReport, sam
 	for _, a := range axioms {
 		trusted = append(trusted, "axiom "+a)
 	}
+	trusted = append(trusted, extraTrusted...)
 	cov := map[string]interface{}{
 		"obligations":              total,
 		"discharged":               discharged,
